@@ -236,7 +236,7 @@ example : (run (repaired false false) ⟨SetData.new, [5]⟩ [5]
 theorem C10_count_full_false_remove : ¬ C10_count_full (asFound false false) := by
   intro h
   have := h [5] [.add 9, .remove 9, .count] (by decide) (by decide)
-    ⟨⟨[], false, some 0, [], [9], []⟩, [5]⟩ [5] [(0, 1)] (by rfl) (0, 1) (by simp)
+    ⟨⟨[], false, some 0, [], [9], [], true⟩, [5]⟩ [5] [(0, 1)] (by rfl) (0, 1) (by simp)
   simp at this
 
 /-- The code as it is violates the full statement on the side of a many-to-many relationship from which the flush does not
@@ -245,7 +245,7 @@ theorem C10_count_full_false_remove : ¬ C10_count_full (asFound false false) :=
 theorem C10_count_full_false_flush : ¬ C10_count_full (asFound true false) := by
   intro h
   have := h [7] [.seen 7, .revRemove 7, .flush, .count] (by decide) (by decide)
-    ⟨⟨[], false, some (-1), [], [7], []⟩, []⟩ [] [(-1, 0)] (by rfl) (-1, 0) (by simp)
+    ⟨⟨[], false, some (-1), [], [7], [], false⟩, []⟩ [] [(-1, 0)] (by rfl) (-1, 0) (by simp)
   simp at this
 
 end PonyVerif.Props.C10
